@@ -201,7 +201,9 @@ class Cases:
         key = (f.pkey, f.pqn, clause)
         st = self.stats.get(key)
         if st is None:
-            st = self.stats[key] = dict(n=0, bad=0, first=None, qn=f.qn, ub=0, ubfirst=None)
+            st = self.stats[key] = dict(n=0, bad=0, first=None, qn=f.qn, ub=0, ubfirst=None,
+                                        sample=dict(case=_plain(case), got=repr(got) if got is not None else "-",
+                                                    specified=want))
         st["n"] += 1
         if got is not None and got.kind == "ub":
             st["ub"] += 1
@@ -268,7 +270,8 @@ def flush_stats(chk, rule, stats):
         else:
             chk.ok(rule, where, "%s / %s: %d regions agree with the specification" % (
                 pqn.split("::")[-1], clause, st["n"]), key=(pkey, clause),
-                   sample=dict(at=where, function=pqn, clause=clause, regions=st["n"], verdict="holds"))
+                   sample=dict(at=where, function=pqn, clause=clause, regions=st["n"], verdict="holds",
+                               one_region=st.get("sample")))
     return total
 
 
@@ -306,6 +309,23 @@ def ub_view(stats, accessor_clauses=("at:", "absoluteFromRelative", "relativeFro
     return out
 
 
+RULE_TEXT = {
+    "*": "R-REG: for every (function, clause) pair the extracted source, evaluated abstractly on every region "
+         "(order/adjacency/wrap-around type of the integer inputs, placement of the support windows, position or "
+         "abstract value of scalar inputs), gives the outcome the specification function prescribes "
+         "(value / not-contained / which exception / dependence set); an outcome 'undefined behaviour' never agrees",
+    "R-REG.ub": "R-REG (C09 view): on every region the abstract evaluation stays defined: no out-of-range subscript, "
+                "uninitialised read, null / empty-optional dereference, invalid iterator operation, signed overflow; "
+                "checked accessors throw or report not-contained for every out-of-view index",
+    "R-REG.inv": "R-REG (C10 view): constructors accept exactly the invariant states; every object produced or touched "
+                 "by an evaluated operation (failing ones included) satisfies the class invariant afterwards",
+    "R-REG.unchanged": "R-REG (C14 view): the state of every operand is identical before and after each evaluated "
+                       "operation; refused in-place operations leave the target unchanged",
+    "R-REG.const": "constant propagation through faculty / facultyRatio / binomialCoefficient for arguments 0..9 equals "
+                   "n!, a!/b!, C(n,k)",
+}
+
+
 def run_jobs(chk, unit, rule, jobs, procs=None, view=None):
     """jobs: list of (module name, suite function name, kwargs).  Returns number of regions evaluated."""
     import multiprocessing as mp
@@ -330,7 +350,10 @@ def run_jobs(chk, unit, rule, jobs, procs=None, view=None):
     chk.notes["abstract_calls"] = chk.notes.get("abstract_calls", 0) + evals
     if view is not None:
         stats = view(stats)
-    return flush_stats(chk, rule, stats)
+    chk.rule(rule, RULE_TEXT.get(rule, RULE_TEXT["*"]))
+    n = flush_stats(chk, rule, stats)
+    chk.regions += n
+    return n
 
 
 def _case_txt(c):
